@@ -522,12 +522,13 @@ fn header_needs_more(_p: &mut Parser, c: &mut ReadCursor) -> Result<(), ParseErr
 }
 
 // @harness c06_resync_automaton
-// @props C06
+// @props C06,C01
 // @tier quick
 // @timeout 600
+// @progress link::parser::Parser::parse
 // @units Parser::parse (Discard mode), parse_impl, parse_sync1, parse_sync2, ReadCursor::transaction
 // @stubs parse_header -> "needs more bytes" (asserts fewer than 8 remain: exact on every reachable path); parse_body -> unreachable
-// @bounds discard mode; parser in FindSync1 or FindSync2 (i.e. any read history that ended inside the sync search); ONE call with 1 or 2 arbitrary bytes: the state afterwards is the state of the reference matcher for 05 64 over (bytes already matched + new bytes) and every byte up to the match is consumed.  Chunk-independence of the sync search follows by induction over calls (an argument, not a solver result).
+// @bounds discard mode; parser in FindSync1 or FindSync2 (i.e. any read history that ended inside the sync search); ONE call with 1 or 2 arbitrary bytes: the state afterwards is the state of the reference matcher for 05 64 over (bytes already matched + new bytes) and every byte up to the match is consumed.  Chunk-independence of the sync search follows by induction over calls (an argument, not a solver result).  Progress: the dispatch loops of parse/parse_impl finish within 4 iterations for these 1..2 bytes - the unwinding assertion of those loops is part of the claim ('never spins'), a failure there is reported as a violation
 #[kani::proof]
 #[kani::unwind(5)]
 #[kani::stub(Parser::parse_body, body_never)]
@@ -570,6 +571,7 @@ fn c06_resync_automaton() {
 // @props C06,C01
 // @tier quick
 // @timeout 300
+// @progress link::parser::Parser::parse
 // @units Parser::parse (Close mode), parse_impl
 // @stubs parse_header -> "needs more bytes" (exact: fewer than 8 remain); parse_body -> unreachable
 // @bounds close mode, from FindSync1/FindSync2, 1..=2 arbitrary bytes: a wrong start byte is reported as an error (session ends cleanly), never skipped silently and never a panic
